@@ -23,3 +23,9 @@ open Lungo.C05
 #print axioms cut_base
 #print axioms run_post
 #print axioms step_inv
+#print axioms search_ce_sound
+#print axioms search_ce_image
+#print axioms no_rename_keeps_old
+#print axioms fsInit_holds
+#print axioms search_no_false_alarm
+#print axioms search_expected_safe
